@@ -168,7 +168,7 @@ def gen_shift(op, seed, thorough):
                 yield ins, {ra: v, rb: v}, {}, 0
 
 
-MEMWORDS = [0x00000000, 0x80FF7F01, 0xFFFFFFFF, 0x7F80FF00, 0x12345678, 0x8000FFFF]
+MEMWORDS = [0x00000000, 0x80FF7F01, 0xFFFFFFFF, 0x7F80FF00, 0x12345678, 0x8000FFFF, 0x00008000, 0x80000080, 0x7FFF7F7F]
 LS_IMMS = [0, 1, 2, 3, -1, -4, -2048, 2047]
 
 
@@ -179,7 +179,7 @@ def _bases():
 
 def gen_load(op, seed, thorough):
     ra, rb = _regs(seed)
-    words_list = MEMWORDS if thorough else rot(MEMWORDS, seed)[:4]
+    words_list = MEMWORDS  # every seed sees every word: the sign-extension boundaries (0x80, 0x8000 exactly) must not be rotated away
     for rd, rs1 in ((ra, rb), (rb, rb), (0, rb)):
         for base in _bases():
             for imm in LS_IMMS:
